@@ -116,11 +116,12 @@ Inductive out :=
 | OFlushEnd (ok : bool).
 Global Instance out_eq_dec : EqDecision out. Proof. solve_decision. Defined.
 
-(* store.Set: unconditional replace by fingerprint *)
+(* aggrGroup.insert -> store.Alerts.SetIfNotOlder: replace by fingerprint unless the incoming alert has a strictly
+   older UpdatedAt than the stored one (then the stored one is kept; repair of the C14 defect, fix d822580) *)
 Fixpoint store_set (l : list alert) (a : alert) : list alert :=
   match l with
   | [] => [a]
-  | b :: r => if a_id b =? a_id a then a :: r else b :: store_set r a
+  | b :: r => if a_id b =? a_id a then (if a_upd a <? a_upd b then b else a) :: r else b :: store_set r a
   end.
 
 Fixpoint insert_sorted (x : falert) (l : list falert) : list falert :=
